@@ -41,7 +41,8 @@ def parse_callee(text):
     idents = []
     gens = []
     first = True
-    for s in segs:
+    nseg = len(segs)
+    for si, s in enumerate(segs):
         s = s.strip()
         if first and s.startswith('<') and (not s.startswith('<impl ') or _top_as(s[1:P.match_bracket(s, 0)]) >= 0):
             inner = s[1:P.match_bracket(s, 0)]
@@ -55,7 +56,7 @@ def parse_callee(text):
             first = False
             continue
         first = False
-        if s.startswith('<impl '):
+        if s.startswith('<impl ') and si < nseg - 1:
             c.implty = s[6:-1]
             continue
         if s.startswith('<'):
@@ -1818,8 +1819,32 @@ def _subtree(args):
     return leaves, stats, problem, {k: list(v) for k, v in engine.encoded.items()}, dict(engine.models_used)
 
 
-def explore_parallel(engine, run, on_path, jobs=16, max_paths=20000, deadline=None, timeout_ms=20000, frontier=None):
+class _WallTimeout(Exception):
+    pass
+
+
+def _alarm_handler(signum, frame):
+    raise _WallTimeout()
+
+
+def explore_parallel(engine, run, on_path, jobs=16, max_paths=20000, deadline=None, timeout_ms=20000, frontier=None,
+                     wall_s=None):
     frontier = frontier or jobs * 6
+    if wall_s is None:
+        wall_s = max(10, int(deadline - time.time())) if deadline else 3600
+    t_end = time.time() + wall_s
+    old_handler = signal.signal(signal.SIGALRM, _alarm_handler)
+    signal.alarm(int(wall_s) + 1)
+    try:
+        return _explore_parallel(engine, run, on_path, jobs, max_paths, deadline, timeout_ms, frontier, t_end)
+    except _WallTimeout:
+        raise Inconclusive('wall-clock cap of %ds reached while executing a single path' % wall_s)
+    finally:
+        signal.alarm(0)
+        signal.signal(signal.SIGALRM, old_handler)
+
+
+def _explore_parallel(engine, run, on_path, jobs, max_paths, deadline, timeout_ms, frontier, t_end):
     stats = new_stats()
     leaves = []
     work = [[]]
@@ -1849,8 +1874,18 @@ def explore_parallel(engine, run, on_path, jobs=16, max_paths=20000, deadline=No
     problems = []
     sys.stdout.flush()
     ctxm = multiprocessing.get_context('fork')
+    signal.alarm(0)
     with ctxm.Pool(min(jobs, len(tasks))) as pool:
-        for (lv, st, problem, enc, models) in pool.imap_unordered(_subtree, tasks, chunksize=1):
+        it = pool.imap_unordered(_subtree, tasks, chunksize=1)
+        while True:
+            try:
+                (lv, st, problem, enc, models) = it.next(timeout=max(1.0, t_end - time.time()))
+            except StopIteration:
+                break
+            except multiprocessing.TimeoutError:
+                pool.terminate()
+                problems.append('wall-clock cap reached; workers terminated')
+                break
             leaves.extend(lv)
             for k, v in st.items():
                 stats[k] = stats.get(k, 0) + v
